@@ -9,6 +9,9 @@
    Fuel of every call: fuel_for s = _capacity + 2 * _size + 11 (HashMapPtr.v).
    The model's node heap is a function nat -> pnode option built from point updates; after every op the driver
    re-tabulates it over the ids below p_next (an extensionally equal function: no id >= p_next was ever allocated). *)
+(* line 1 is "hash <kind> [tmp]"; the hash is FIXED at construction: "reseed <kind>" lines (the caller's hasher object changes
+   state after the map copied it) and the "tmp" flag are ignored; kind 5 (signed keys, frg::hash<int64_t>, keys as two's
+   complement patterns) is the same function of the key value as kind 3 -- see comp/hashmap/driver.ml *)
 let m32 = 0xFFFFFFFFL
 let hash_of kind : n -> n = fun k ->
   let x = i64_of_n k in
@@ -16,7 +19,7 @@ let hash_of kind : n -> n = fun k ->
     | 0 -> x
     | 1 -> 7L
     | 2 -> Int64.unsigned_rem x 3L
-    | 3 -> Int64.logand (Int64.logxor x (Int64.shift_right_logical x 32)) m32
+    | 3 | 5 -> Int64.logand (Int64.logxor x (Int64.shift_right_logical x 32)) m32
     | _ -> Int64.shift_right_logical x 28)
 
 let psz = n_of_string (if Array.length Sys.argv > 1 then Sys.argv.(1) else "8")
@@ -66,7 +69,7 @@ let table_line (s : pstate) =
 
 let body lines =
   let kind, ops = match lines with
-    | l :: r when (match words l with ["hash"; _] -> true | _ -> false) ->
+    | l :: r when (match words l with "hash" :: _ :: _ -> true | _ -> false) ->
       (int_of_string (List.nth (words l) 1), r)
     | _ -> (0, lines) in
   let hash = hash_of kind in
